@@ -161,6 +161,24 @@ def corpus():
     n_ = _mini([("f", "Int", [("x", "I", None)])], d2([("a", "Int"), ("b", "String"), ("c", "Int")]), via="code")
     out.append(dict(_pair(o_, n_, [{"edit": "retype_input_field", "path": ["I", "b"], "old": _t("Int"), "new": _t("String")},
                                    {"edit": "add_input_field", "path": ["I", "c"]}]), derive="clone_setter"))
+    # seeded C20-i: the implemented-interface maps must be real dicts (membership tested repeatedly)
+    def _ifs(order):
+        fld = lambda n_, t_="Int": {"name": n_, "type": G.N(t_), "args": [], "depr": None, "resolver": None}  # noqa: E731
+        return {"types": [
+            {"kind": "object", "name": "Query", "interfaces": [], "default_resolver": None, "fields": [fld("o", "Ob")]},
+            {"kind": "object", "name": "Ob", "interfaces": list(order), "default_resolver": None,
+             "fields": [fld("a"), fld("b"), fld("c")]},
+            {"kind": "interface", "name": "A", "fields": [fld("a")]},
+            {"kind": "interface", "name": "B", "fields": [fld("b")]},
+            {"kind": "interface", "name": "C", "fields": [fld("c")]}],
+            "directives": [], "query": "Query", "mutation": None, "subscription": None,
+            "default_resolver": None, "via": "sdl"}
+    out.append(dict(_pair(_ifs("ABC"), _ifs("CBA"), []), expect_no_change=True))
+    out.append(dict(_pair(_ifs("ABC"), _ifs("BCA"), []), expect_no_change=True))
+    out.append(_pair(_ifs("ABC"), _ifs("BC"), [{"edit": "remove_interface", "path": ["Ob", "A"]}]))
+    out.append(_pair(_ifs("ABC"), _ifs("AC"), [{"edit": "remove_interface", "path": ["Ob", "B"]}]))
+    out.append(_pair(_ifs("AC"), _ifs("ABC"), [{"edit": "add_interface", "path": ["Ob", "B"]}]))
+    out.append(_pair(_ifs("BC"), _ifs("ABC"), [{"edit": "add_interface", "path": ["Ob", "A"]}]))
     # seeded C20-g: types built from the same SDL definition nodes are not skipped -- clone(), transforms and
     # public setters rewrite a type and keep its `nodes`
     w_old = {"types": [
@@ -362,6 +380,24 @@ def generate(rng, tier):
                 continue
             cases.append(dict(_pair(base, new, descs), derive=mode))
             got += 1
+    # objects implementing 2-4 interfaces: the `implements` list permuted (no change expected: the result
+    # is a multiset and interface membership is a set), an interface removed at every position, a missing
+    # one added at every position; code- and SDL-built
+    for i in range(3 if tier == "quick" else 12):
+        base = G.gen_multi_iface_spec(rng, "sdl" if i % 2 else "code", n_ifaces=2 + i % 3)
+        if not _buildable(base):
+            continue
+        variants = G.interface_list_edits(base)
+        if tier == "quick":
+            variants = [v for v in variants if v[0] == "permute"] + rng.sample(
+                [v for v in variants if v[0] != "permute"], min(8, len([v for v in variants if v[0] != "permute"])))
+        for vk, new, desc in variants:
+            if not _buildable(new):
+                continue
+            c = _pair(base, new, [desc] if desc else [])
+            if vk == "permute":
+                c["expect_no_change"] = True
+            cases.append(c)
     # safe retypes of input positions (same name, non-null dropped): nothing BREAKING is reported, so the
     # variable-through-old-type operations are re-validated on them
     for a in (G.BUILTIN_NAMES if tier == "thorough" else ["Int", "Float"]):
@@ -559,6 +595,8 @@ def direct_checks(case, obs):
                 out.append(("edit-reported", "safe-retype-unreported"))
             else:
                 out.append(("edit-reported: %s %s" % (d["edit"], d["path"]), None))
+    if case.get("expect_no_change") and changes:
+        out.append(("order-independent: permuted implements list yields %s" % changes[:2], None))
     if not case["edits"] and changes and json.dumps(sorted(map(json.dumps, case["old"]["types"]))) == \
             json.dumps(sorted(map(json.dumps, case["new"]["types"]))):
         out.append(("reflexive", None))
